@@ -63,7 +63,17 @@ Proof.
       rewrite Z.mul_sub_distr_l. lia. }
     replace (p - k)%Z with ((p - k') + (k' / n - k / n) * n)%Z by lia. now rewrite Z.mod_add by lia.
 Qed.
-Lemma unwind_eq_iff p n k k' : 0 < n ->
+Lemma mod_eq_sub_iff (a b n : Z) : (0 < n)%Z -> (a mod n = b mod n <-> (a - b) mod n = 0)%Z.
+Proof.
+  intros Hn. rewrite Zminus_mod.
+  pose proof (Z.mod_pos_bound a n Hn) as Ha. pose proof (Z.mod_pos_bound b n Hn) as Hb.
+  set (x := (a mod n)%Z) in *. set (y := (b mod n)%Z) in *. clearbody x y. split.
+  - intros ->. rewrite Z.sub_diag. apply Z.mod_0_l. lia.
+  - intros H. destruct (Z_lt_le_dec x y) as [Hlt|Hge].
+    + assert (E : ((x - y) mod n = x - y + n)%Z) by (symmetry; apply Z.mod_unique with (q := (-1)%Z); lia). lia.
+    + rewrite Z.mod_small in H by lia. lia.
+Qed.
+Lemma unwind_eq_iff p n k k'  : 0 < n ->
   (unwind p k n = unwind p k' n <-> (k mod Z.of_nat n = k' mod Z.of_nat n)%Z).
 Proof.
   intros Hn. rewrite <- (mod_sub_cong (Z.of_nat p)) by lia.
@@ -627,6 +637,125 @@ Proof.
       destruct (Nat.ltb_spec (hit s off' k) len) as [Hh|Hh].
       * apply HnthO; exact Hh.
       * unfold at_, rows. rewrite Est. reflexivity.
+Qed.
+
+(* ------------------------------------------------------------------ writerange (tensor offsets, scatter) *)
+Definition wr (rs : list (list A)) (i e : nat) (v : A) : list (list A) := upd rs i (upd (nth i rs []) e v).
+Definition rect (rs : list (list A)) (n m : nat) : Prop := length rs = n /\ forall i, i < n -> length (nth i rs []) = m.
+
+Lemma wr_rect rs n m i e v : rect rs n m -> rect (wr rs i e v) n m.
+Proof.
+  intros (Hl & Hr). unfold wr, rect. rewrite upd_length. split; [exact Hl|].
+  intros i' Hi'. destruct (Nat.lt_ge_cases i (length rs)) as [Hi|Hi].
+  - rewrite nth_upd by exact Hi. destruct (Nat.eqb_spec i' i) as [->|]; [rewrite upd_length|]; apply Hr; lia.
+  - rewrite nth_upd_ge by exact Hi. apply Hr; exact Hi'.
+Qed.
+Lemma nth_wr rs n m i e v i' e' : rect rs n m -> i < n -> e < m -> i' < n ->
+  nth e' (nth i' (wr rs i e v) []) zeroA = if (i' =? i) && (e' =? e) then v else nth e' (nth i' rs []) zeroA.
+Proof.
+  intros (Hl & Hr) Hi He Hi'. unfold wr. rewrite nth_upd by lia.
+  destruct (Nat.eqb_spec i' i) as [->|Hne]; cbn [andb]; [|reflexivity].
+  rewrite nth_upd by (rewrite Hr; lia). destruct (Nat.eqb_spec e' e); reflexivity.
+Qed.
+
+Lemma inner_spec (f : nat -> nat) (g : nat -> A) n m : forall k rs, k <= m -> rect rs n m -> (forall e, e < k -> f e < n) ->
+  let rs' := fold_left (fun rs e => wr rs (f e) e (g e)) (seq 0 k) rs in
+  rect rs' n m /\
+  forall i' e', i' < n -> nth e' (nth i' rs' []) zeroA = if (e' <? k) && (f e' =? i') then g e' else nth e' (nth i' rs []) zeroA.
+Proof.
+  induction k as [|k IH]; intros rs Hk Hrect Hf; cbn zeta.
+  - cbn [seq fold_left]. split; [exact Hrect|]. intros i' e' _. reflexivity.
+  - rewrite seq_S, fold_left_app. cbn [fold_left Nat.add].
+    destruct (IH rs ltac:(lia) Hrect ltac:(intros; apply Hf; lia)) as (Hrect' & Hnth). cbn zeta in Hrect', Hnth.
+    split; [apply wr_rect; exact Hrect'|].
+    intros i' e' Hi'. rewrite (nth_wr _ n m) by (auto; try lia; apply Hf; lia).
+    rewrite Hnth by exact Hi'.
+    destruct (Nat.eqb_spec i' (f k)) as [->|Hne]; destruct (Nat.eqb_spec e' k) as [->|Hne']; cbn [andb].
+    + replace (k <? S k) with true by (symmetry; apply Nat.ltb_lt; lia). rewrite Nat.eqb_refl. reflexivity.
+    + destruct (Nat.ltb_spec e' k); destruct (Nat.ltb_spec e' (S k)); try lia; reflexivity.
+    + replace (k <? S k) with true by (symmetry; apply Nat.ltb_lt; lia).
+      replace (k <? k) with false by (symmetry; apply Nat.ltb_ge; lia).
+      destruct (Nat.eqb_spec (f k) i'); [congruence|reflexivity].
+    + destruct (Nat.ltb_spec e' k); destruct (Nat.ltb_spec e' (S k)); try lia; reflexivity.
+Qed.
+
+Lemma list_prod_app_l {X Y} (l l' : list X) (l2 : list Y) : list_prod (l ++ l') l2 = list_prod l l2 ++ list_prod l' l2.
+Proof. induction l as [|a l IH]; cbn [list_prod app]; [reflexivity|]. rewrite IH, app_assoc. reflexivity. Qed.
+Lemma fold_left_map' {X Y Z} (F : Z -> Y -> Z) (h : X -> Y) l : forall z, fold_left F (map h l) z = fold_left (fun z x => F z (h x)) l z.
+Proof. induction l as [|a l IH]; intros z; cbn [map fold_left]; auto. Qed.
+
+(* scatter of a range: per element e, column j lands on slot idx (off_e - j); last write wins is
+   irrelevant because for len <= N the slots of one element are distinct *)
+Lemma scatter_spec (s : ring) (offz : nat -> Z) (val : nat -> nat -> A) n m : wf s -> N s = n ->
+  forall len rs, len <= n -> rect rs n m ->
+  let F := fun rs (je : nat * nat) => let '(j, e) := je in
+             wr rs (idx s (offz e - Z.of_nat j)) e (val e j) in
+  let rs' := fold_left F (list_prod (seq 0 len) (seq 0 m)) rs in
+  rect rs' n m /\
+  forall k e', e' < m ->
+    nth e' (nth (idx s k) rs' []) zeroA =
+    if hit s (offz e') k <? len then val e' (hit s (offz e') k) else nth e' (nth (idx s k) rs []) zeroA.
+Proof.
+  intros Hwf HN. induction len as [|len IH]; intros rs Hlen Hrect; cbn zeta.
+  - cbn [seq list_prod fold_left]. split; [exact Hrect|]. intros k e' _.
+    destruct (hit s (offz e') k <? 0) eqn:E; [apply Nat.ltb_lt in E; lia|reflexivity].
+  - rewrite seq_S, list_prod_app_l, fold_left_app. cbn [list_prod Nat.add]. rewrite app_nil_r, fold_left_map'.
+    destruct (IH rs ltac:(lia) Hrect) as (Hrect' & Hnth). cbn zeta in Hrect', Hnth.
+    set (acc := fold_left _ (list_prod (seq 0 len) (seq 0 m)) rs) in *.
+    pose proof (inner_spec (fun e => idx s (offz e - Z.of_nat len)) (fun e => val e len) n m m acc (le_n m) Hrect'
+                  ltac:(intros; rewrite <- HN; apply idx_lt; exact Hwf)) as (Hrect'' & Hin).
+    cbn zeta in Hrect'', Hin. split; [exact Hrect''|].
+    intros k e' He'. rewrite Hin by (rewrite <- HN; apply idx_lt; exact Hwf). rewrite Hnth by exact He'.
+    replace (e' <? m) with true by (symmetry; apply Nat.ltb_lt; exact He'). cbn [andb].
+    (* idx (off - len) = idx k  <->  hit = len *)
+    assert (Hiff : idx s (offz e' - Z.of_nat len) = idx s k <-> hit s (offz e') k = len).
+    { rewrite idx_eq_iff by exact Hwf. unfold hit. pose proof Hwf as (Hn & _). rewrite HN in *.
+      rewrite mod_eq_sub_iff by lia.
+      assert (Hh : (Z.to_nat ((offz e' - k) mod Z.of_nat n) = len <->
+                    (offz e' - k) mod Z.of_nat n = Z.of_nat len mod Z.of_nat n)%Z).
+      { rewrite (Z.mod_small (Z.of_nat len)) by lia.
+        pose proof (Z.mod_pos_bound (offz e' - k) (Z.of_nat n) ltac:(lia)). lia. }
+      rewrite Hh, mod_eq_sub_iff by lia.
+      replace (offz e' - Z.of_nat len - k)%Z with (offz e' - k - Z.of_nat len)%Z by lia. reflexivity. }
+    destruct (Nat.eqb_spec (idx s (offz e' - Z.of_nat len)) (idx s k)) as [He|He].
+    + apply Hiff in He. rewrite He. replace (len <? S len) with true by (symmetry; apply Nat.ltb_lt; lia). reflexivity.
+    + assert (hit s (offz e') k <> len) by (intros Hc; apply He, Hiff, Hc).
+      destruct (Nat.ltb_spec (hit s (offz e') k) len); destruct (Nat.ltb_spec (hit s (offz e') k) (S len)); try lia; reflexivity.
+Qed.
+
+(* writing a range with per-element offsets: for element e, column j lands on the observation
+   (off'_e - j) steps before the write position; every other element of every observation is
+   unchanged; in place and out of place agree; data types must match (no conversion) *)
+Theorem writerange_tensor_spec s r offs osh fwd inplace : wf s -> full s ->
+  let len := range_len r in
+  1 <= len <= N s ->
+  exists d sh, st s = SFull d sh (rows s) /\
+    (rect (rows s) (N s) (nel sh) ->
+     shape_eqb (rshape r) sh = true -> shape_eqb osh sh = true -> D_eqb d (rdt r) = true ->
+     exists s', writerange_tensor s r offs osh fwd inplace = Ok s' OUnit /\ wf s' /\ N s' = N s /\ ptr s' = ptr s /\
+       st s' = SFull d sh (rows s') /\ rect (rows s') (N s) (nel sh) /\
+       forall k e, e < nel sh ->
+         nth e (at_ s' k) zeroA =
+         let off' := shift_off (nth e offs 0%Z) len fwd in
+         if hit s off' k <? len then nth (hit s off' k) (nth e (rcols r) []) zeroA else nth e (at_ s k) zeroA).
+Proof.
+  intros Hwf Hf len Hlen. pose proof Hwf as (Hn & Hp & Hst).
+  unfold full in Hf. unfold writerange_tensor. fold len. unfold rows at 1 2.
+  destruct (st s) as [| |d sh rw] eqn:Est; try contradiction.
+  exists d, sh. split; [reflexivity|]. intros Hrect Hsh Hosh Hd. rewrite Hsh, Hosh, Hd. cbn [negb].
+  replace (N s <? len) with false by (symmetry; apply Nat.ltb_ge; lia).
+  pose proof (scatter_spec s (fun e => shift_off (nth e offs 0%Z) len fwd)
+                (fun e j => nth j (nth e (rcols r) []) zeroA) (N s) (nel sh) Hwf eq_refl len rw ltac:(lia) Hrect)
+    as (Hrect' & Hnth). cbn zeta in Hrect', Hnth.
+  eexists. split; [reflexivity|]. unfold set_st; cbn [N ptr st].
+  split; [unfold wf; cbn [N ptr st]; split; [exact Hn|split; [exact Hp|exact (proj1 Hrect')]]|].
+  split; [reflexivity|]. split; [reflexivity|]. split; [reflexivity|].
+  unfold rows; cbn [st]. split; [exact Hrect'|].
+  intros k e He. unfold at_ at 1. unfold rows; cbn [st].
+  change (idx (mkRing (N s) (ptr s) _) k) with (idx s k).
+  etransitivity; [exact (Hnth k e He)|]. cbv zeta.
+  destruct (hit s (shift_off (nth e offs 0%Z) len fwd) k <? len); [reflexivity|].
+  unfold at_, rows. rewrite Est. reflexivity.
 Qed.
 
 (* ------------------------------------------------------------------ invariant over every run *)
